@@ -531,6 +531,16 @@ class SRun:
                 after = vv_of2(o, n) if r1 is not None and r1.typ == "OK" and r2 is not None and r2.typ == "OK" else None
                 if after is not None and after <= before[n]:
                     self.fail("C02.uidvalidity-not-larger-after-recreate", {"how": ep.get("how", "restart")}, f"> {before[n]}", after)
+        # epilogue: nothing may be left lying in a mailbox that was deleted to a placeholder during the phase: created again, it is empty
+        for nm_ in self.scn.get("epilogue_create", ()):
+            o = h.sess("O")
+            o.on_resp = None
+            r_, _ = o.do(f'CREATE "{nm_}"')
+            if r_ is not None and r_.typ == "OK":
+                r_, resps_ = o.do(f'STATUS "{nm_}" (MESSAGES)')
+                for x in resps_:
+                    if x.kind == "untagged" and x.typ == "STATUS" and len(x.data) == 2 and [str(v_) for v_ in x.data[1]][1:2] != ["0"]:
+                        self.fail("C05.message-in-deleted-mailbox", {"mbox": "placeholder"}, "MESSAGES 0 after CREATE", [str(v_) for v_ in x.data[1]])
         # epilogue: an orderly restart changes nothing a client can see -- the subscriptions (LSUB) and the mailbox list with their
         # UIDVALIDITY / UIDNEXT are read, the server is shut down in an orderly way and started again, and they are read again
         if self.scn.get("epilogue_restart_same"):
